@@ -40,13 +40,17 @@ Rule2New(r1) == UNION {{Rule("#r2", n, c, <<>>) : c \in Cons2(r1, n)} : n \in Se
 Rule2Redef   == {Rule("#r1", n, <<>>, <<>>) : n \in Seqs12({Lit("b"), P("x")})}                \* redefinition
                 \cup  \* a redefinition using the temporary identifier of the first definition, with a constraint of its own
                 {Rule("#r1", n, << <<C1("_t", <<Lit("b")>>)>> >>, <<>>) : n \in {<<P("_t")>>, <<Lit("b"), P("_t")>>, <<P("_t"), Lit("b")>>}}
+RefersR1(r)  == \E j \in 1..Len(r.name) : r.name[j] = R("#r1")
 Rule3s(r2)   == {<<>>, <<Rule("#r3", <<R("#r1"), R("#r1")>>, <<>>, IF r2.id = "#r2" THEN <<"#r2">> ELSE <<>>)>>}
+                \cup  \* "diamond": #r1 inlined into #r3 once through #r2 and once directly
+                (IF r2.id = "#r2" /\ RefersR1(r2) THEN {<<Rule("#r3", <<R("#r2"), R("#r1")>>, <<>>, <<>>)>>} ELSE {})
 (* signing between the first two rules: none, #r2 signed by #r1, #r1 signed by #r2 *)
 Signed(r1, r2) == {<<r1, r2>>} \cup (IF r2.id = "#r2" THEN {<<r1, [r2 EXCEPT !.sign = <<"#r1">>]>>,
                                                               <<[r1 EXCEPT !.sign = <<"#r2">>], r2>>} ELSE {})
 (* two definitions of #r1 with signers of their own (alternatives): either one signed by #r3 *)
 RedefSigned(s) == IF Len(s) = 3 /\ s[2].id = "#r1" /\ s[1].sign = <<>>
-                  THEN {s, <<[s[1] EXCEPT !.sign = <<"#r3">>], s[2], s[3]>>, <<s[1], [s[2] EXCEPT !.sign = <<"#r3">>], s[3]>>}
+                  THEN {s, <<[s[1] EXCEPT !.sign = <<"#r3">>], s[2], s[3]>>, <<s[1], [s[2] EXCEPT !.sign = <<"#r3">>], s[3]>>,
+                        <<[s[1] EXCEPT !.sign = <<"#r3">>], [s[2] EXCEPT !.sign = <<"#r3">>], s[3]>>}    \* same signers, own bindings
                   ELSE {s}
 WfFamily == UNION {RedefSigned(s) : s \in
               UNION {UNION {UNION {{pr \o r3 : r3 \in Rule3s(r2)} : pr \in Signed(r1, r2)}
@@ -71,9 +75,11 @@ HasTemp(r) == \E j \in 1..Len(r.name) : r.name[j].k = "p" /\ IsTempPat(r.name[j]
 Focus(s)   == Len(s) = 3 /\ s[2].id = "#r1" /\
               \/ (HasTemp(s[1]) /\ HasTemp(s[2]) /\ Len(s[1].cons) > 0 /\ Len(s[2].cons) > 0)
               \/ (s[1].sign # s[2].sign /\ s[1].name = s[2].name)
+              \/ (s[1].sign = <<"#r3">> /\ s[2].sign = <<"#r3">> /\ s[1].name # s[2].name)
+Focus2(s)  == Len(s) = 3 /\ s[2].id = "#r2" /\ s[3].name = <<R("#r2"), R("#r1")>> /\ HasTemp(s[1]) /\ Len(s[1].cons) > 0
 Picked == {i \in 1..Count : i % Stride = Offset % Stride}
           \cup (IF Mode \in {"schemas", "checks"}
-                THEN {i \in 1..Count : Focus(Family[i]) /\ i % FocusStride = FocusOffset % FocusStride} ELSE {})
+                THEN {i \in 1..Count : (Focus(Family[i]) \/ Focus2(Family[i])) /\ i % FocusStride = FocusOffset % FocusStride} ELSE {})
 
 ExpSchema(i) == LET S == [rules |-> Family[i]]  CH == AllChains(S) IN
   <<"E", i, S.rules,
